@@ -42,7 +42,7 @@ func (e *engine) Info() core.Info {
 			"networks as the property states: no self-loops, no parallel links, positive finite speeds; coordinates in [1,9] so that the relative merge tolerance is unambiguous",
 			"the Dijkstra model and polyline-length computation of the oracle are correct; costs compared with 1e-9 relative tolerance; any minimum-cost chain is accepted",
 		},
-		QuickRuns: 95000, ThoroughRuns: 6000000, QuickWallS: 75, ThoroughWallS: 1200,
+		QuickRuns: 95000, ThoroughRuns: 6000000, TokenScheduled: true, QuickWallS: 75, ThoroughWallS: 1200,
 	}
 }
 
